@@ -297,14 +297,17 @@ def toColorAttr : Attr → Color.Attr
 def textColorComp (a : TextAttrsOf Attr) : Color.Comp :=
   { textColor := toColorAttr a.color, bgColor := toColorAttr a.bg }
 
+/-- a table component (body, footnote, source, column header): text colour, background and the six border colours -/
+def tblColorComp (b : TblAttrsOf Attr) : Color.Comp :=
+  { textColor := toColorAttr b.color, bgColor := toColorAttr b.bg,
+    borderColors := [b.bcLeft, b.bcRight, b.bcTop, b.bcBottom, b.bcFirst, b.bcLast].map toColorAttr }
+
 def colorDoc (d : Doc) : Color.Doc :=
-  let b := d.body.attrs
-  { bodies := [{ textColor := toColorAttr b.color, bgColor := toColorAttr b.bg,
-                 borderColors := [b.bcLeft, b.bcRight, b.bcTop, b.bcBottom, b.bcFirst, b.bcLast].map toColorAttr }],
+  { bodies := [tblColorComp d.body.attrs],
     texts := ([d.title, d.subline].filterMap id).map (fun t => textColorComp t.attrs) ++
-             ([d.footnote, d.source].filterMap id).map (fun f => textColorComp f.attrs.toTextAttrsOf) ++
+             ([d.footnote, d.source].filterMap id).map (fun f => tblColorComp f.attrs) ++
              ([d.pageHeader, d.pageFooter].filterMap id).map (fun t => textColorComp t.attrs),
-    headers := (d.headers.filterMap id).map fun h => textColorComp h.attrs.toTextAttrsOf }
+    headers := (d.headers.filterMap id).map fun h => tblColorComp h.attrs }
 
 /-- the colour context of one encode: what `Utils._get_color_index` answers for every name.
 `= Color.utilsColorIndex colorTable (some ctx) c none`, with the sorted dense table computed once. -/
